@@ -96,7 +96,7 @@ type c09leaf struct {
 var (
 	c09I = []int64{7, math.MaxInt64, -1, 0, math.MinInt64, 1}
 	c09U = []uint64{1 << 63, 7, 0, math.MaxUint64, 1}
-	c09F = []float64{1.5, 0, -2.5, 7, 1e19}
+	c09F = []float64{1.5, 0, -2.5, 7, 1e19, math.NaN(), math.Inf(1)}
 	c09B = []bool{true, false}
 	c09S = []string{"a", "b", ""}
 )
